@@ -298,6 +298,14 @@ func (x *Exec) hookAfter(st *State, fr *Frame, kind, key string, args []Val, ret
 			env.vars[fmt.Sprintf("arg%d", i)] = a
 		}
 		x.bindResults(env, ret)
+		for _, ls := range h.Havocs {
+			l, err := x.resolveLoc(env, ls)
+			if err != nil {
+				x.errorf("hook havoc: %v", err)
+				continue
+			}
+			x.havocLoc(st, l)
+		}
 		for _, c := range h.Assumes {
 			g, err := env.EvalBool(c.Expr)
 			if err != nil {
@@ -344,6 +352,12 @@ func (x *Exec) ghostAssign(st *State, env *Env, name, expr string, h *CallHook) 
 		}
 		g, ok := st.Ghost[base]
 		if !ok {
+			if gt, isVar := x.prog.contracts.GhostVars[base]; isVar {
+				srt, _ := ghostSort(gt)
+				cur := st.heapGet("Ghost_heap_"+base, srt)
+				st.heapSet("Ghost_heap_"+base, Store(cur, kv.T(), v.T()))
+				return
+			}
 			x.errorf("unknown ghost %s", base)
 			return
 		}
@@ -352,6 +366,12 @@ func (x *Exec) ghostAssign(st *State, env *Env, name, expr string, h *CallHook) 
 	}
 	g, ok := st.Ghost[name]
 	if !ok {
+		if gt, isVar := x.prog.contracts.GhostVars[name]; isVar {
+			srt, _ := ghostSort(gt)
+			st.heapGet("Ghost_heap_"+name, srt)
+			st.heapSet("Ghost_heap_"+name, v.T())
+			return
+		}
 		x.errorf("unknown ghost %s", name)
 		return
 	}
@@ -835,6 +855,7 @@ func (x *Exec) atReturn(st *State, fr *Frame, rv Val, pos token.Pos) {
 		}
 	}
 	x.hookEvent(st, fr, "return", "", nil, nil, pos)
+	x.hookAfter(st, fr, "return", "", nil, rv, pos)
 	if fc == nil {
 		return
 	}
